@@ -386,11 +386,13 @@ pub struct GlobalPt {
     /// tolerance for adaptive solvers, step for Euler
     pub tol: f64,
     pub dynamic: bool,
+    /// start time (default 0.3); negative start times are used with the non-autonomous problems
+    #[serde(default)]
+    pub t0: Option<f64>,
 }
 pub struct Global;
 const PROBLEMS10: [&str; 10] = ["lin+1", "lin-2", "logistic", "gauss", "cost", "relax", "osc1", "rot2:lin-2+logistic", "rot3:osc2.5+gauss", "rot4:osc1+logistic+bernoulli"];
-fn global_cfg(solver: Solver, prob: &Problem, tol: f64) -> (Cfg, f64) {
-    let t0 = 0.3;
+fn global_cfg(solver: Solver, prob: &Problem, tol: f64, t0: f64) -> (Cfg, f64) {
     let l = prob.lipschitz(t0, t0 + 2.0).max(0.5);
     let t1 = t0 + 2.0 / l;
     let l = prob.lipschitz(t0, t1).max(0.5);
@@ -407,7 +409,7 @@ impl Check for Global {
         "global-error"
     }
     fn rule(&self) -> String {
-        "7 solvers x 10 closed-form problems x tolerance ladder with the C02 step cap (Euler: step ladder 0.1 x 2^-k / L), static dimension, and for 3 problems x 2 tolerances also dynamic dimension (must agree with the static run to rounding); every yielded state compared with the true solution; signature = (solver, ladder rung, end kind, static/dynamic)".into()
+        "7 solvers x 10 closed-form problems x tolerance ladder with the C02 step cap (Euler: step ladder 0.1 x 2^-k / L), start time 0.3 (non-autonomous problems also -0.45, so that the interval straddles 0), static dimension, and for 3 problems x 2 tolerances also dynamic dimension (must agree with the static run to rounding); every yielded state compared with the true solution; signature = (solver, ladder rung, end kind, static/dynamic)".into()
     }
     fn axes(&self, t: Tier) -> Value {
         json!({"problems": PROBLEMS10, "tol": t.pick(vec![1e-3, 1e-6, 1e-9], vec![1e-3, 1e-4, 1e-5, 1e-6, 1e-7, 1e-8, 1e-9, 1e-10]), "euler_step*L": t.pick("0.1*2^-k, k in {0,3,6}", "0.1*2^-k, k=0..9"), "K": KG})
@@ -422,9 +424,13 @@ impl Check for Global {
                     t.pick(vec![1e-3, 1e-6, 1e-9], vec![1e-3, 1e-4, 1e-5, 1e-6, 1e-7, 1e-8, 1e-9, 1e-10])
                 };
                 for (i, &tol) in ladder.iter().enumerate() {
-                    v.push(GlobalPt { solver, problem: p.to_string(), tol, dynamic: false });
+                    v.push(GlobalPt { solver, problem: p.to_string(), tol, dynamic: false, t0: None });
                     if ["logistic", "rot2:lin-2+logistic", "rot4:osc1+logistic+bernoulli"].contains(&p) && (i == 0 || i == ladder.len() / 2) {
-                        v.push(GlobalPt { solver, problem: p.to_string(), tol, dynamic: true });
+                        v.push(GlobalPt { solver, problem: p.to_string(), tol, dynamic: true, t0: None });
+                    }
+                    // non-autonomous problems also from a negative start time (the interval straddles t = 0)
+                    if ["gauss", "cost", "rot3:osc2.5+gauss"].contains(&p) {
+                        v.push(GlobalPt { solver, problem: p.to_string(), tol, dynamic: false, t0: Some(-0.45) });
                     }
                 }
             }
@@ -434,7 +440,7 @@ impl Check for Global {
     fn run(&self, p: &GlobalPt) -> Outcome {
         let mut o = Outcome::new();
         let prob = problem(&p.problem);
-        let (cfg, l) = global_cfg(p.solver, &prob, p.tol);
+        let (cfg, l) = global_cfg(p.solver, &prob, p.tol, p.t0.unwrap_or(0.3));
         let subj = subject(p.solver);
         let out = run_real(p.solver, &prob, &cfg, if p.dynamic { DimMode::Dynamic } else { DimMode::Static }, 60_000_000);
         if let Some(m) = &out.panic {
@@ -514,7 +520,7 @@ impl Check for Global {
             }
         }
         o.transitions = out.items.len() as u64;
-        o.sig = format!("{}|{:e}|{}|{}", p.solver.name(), p.tol, end_name(&out), if p.dynamic { "dyn" } else { "static" });
+        o.sig = format!("{}|{:e}|{}|{}{}", p.solver.name(), p.tol, end_name(&out), if p.dynamic { "dyn" } else { "static" }, if p.t0.is_some() { "|negative-start" } else { "" });
         o
     }
 }
